@@ -221,8 +221,44 @@ def run(rep, ctx):
     if cr is None:
         raise AnalysisBroken("check_result not found")
     txt = [render(c) for c in cr.walk() if c["k"] == "CallExpr" and "isnan" in c.get("callee", "")]
-    need = {"value": any("result" in t for t in txt), "arguments": any("al->ra[i]" in t for t in txt),
-            "derivatives": any("al->derivs[i]" in t for t in txt), "hessian": any("al->hes[i]" in t for t in txt)}
+
+    def nan_scanner(h):
+        """h(values, n) returns non-zero iff one of values[0..n-1] is NaN: a loop `i < n` whose body tests isnan(values[i])
+        and returns a non-zero constant, and a final `return 0`"""
+        if h is None or h.cfg is None or len(h.params) != 2:
+            return False
+        vals, cnt = h.params[0]["name"], h.params[1]["name"]
+        loops = [n for n in h.walk() if n["k"] in ("ForStmt", "WhileStmt")]
+        if len(loops) != 1:
+            return False
+        lp = loops[0]
+        cond = lp.get("c", [None] * 5)[2] if lp["k"] == "ForStmt" else kids(lp)[0]
+        ct = render(cond).replace(" ", "") if cond is not None else ""
+        m_ = re.match(r"^([A-Za-z_]\w*)<%s$" % re.escape(cnt), ct)
+        if not m_:
+            return False
+        iv = m_.group(1)
+        tests = [c for c in walk(lp) if c["k"] == "CallExpr" and "isnan" in (c.get("callee") or "") and
+                 render(call_args(c)[0]).replace(" ", "") == "%s[%s]" % (vals, iv)]
+        rets = [r_ for r_ in h.walk() if r_["k"] == "ReturnStmt"]
+        inside = [r_ for r_ in rets if h.enclosing(r_, ("ForStmt", "WhileStmt")) is lp]
+        outside = [r_ for r_ in rets if r_ not in inside]
+        return bool(tests) and len(inside) == 1 and cv(kids(inside[0])[0]) not in (None, 0) and \
+            any(any(x is tests[0] or x.get("i") == tests[0].get("i") for x in walk(h.nodes[cid])) and pol is True for cid, pol in h.cfg.facts_at(inside[0])) and \
+            len(outside) == 1 and cv(kids(outside[0])[0]) == 0
+    scanned = {}          # array -> count expression, through a verified scanner helper
+    for c in cr.walk():
+        if c["k"] == "CallExpr" and c.get("calleeId") in F.by_id and len(call_args(c)) == 2:
+            h_ = F.by_id[c["calleeId"]]
+            a0 = al_member(call_args(c)[0])
+            if a0 in ("ra", "derivs", "hes") and nan_scanner(h_):
+                # the result must steer an error return: the call is (part of) a branch condition
+                if cr.enclosing(c, ("IfStmt",)) is not None:
+                    scanned[a0] = render(call_args(c)[1]).replace(" ", "")
+    need = {"value": any("result" in t for t in txt),
+            "arguments": any("al->ra[i]" in t for t in txt) or scanned.get("ra") == "al->n",
+            "derivatives": any("al->derivs[i]" in t for t in txt) or scanned.get("derivs") == "al->n",
+            "hessian": any("al->hes[i]" in t for t in txt) or "hes" in scanned}
     for k_, v_ in need.items():
         p0.check(v_, "check_result|%s" % k_, short_loc(cr.loc), "check_result tests the %s for NaN" % k_)
     def is_n(x):
@@ -239,7 +275,12 @@ def run(rep, ctx):
                             is_n(kids(y)[0]) and cv(kids(y)[1]) == 1:
                         hb.append(n)
     p0.check(bool(hb), "check_result|hessian-size", short_loc(cr.loc), "Hessian loop runs over n(n+1)/2 entries")
-    first = [c for c in cr.walk() if c["k"] == "CallExpr" and "isnan" in c.get("callee", "")]
+    if "hes" in scanned:
+        # with a scanner helper the packed size must be the count handed over for al->hes
+        hb = [n for n in hb if any(c["k"] == "CallExpr" and al_member(call_args(c)[0]) == "hes" and any(x is n or x.get("i") == n.get("i") for x in walk(c))
+                                   for c in cr.walk() if c["k"] == "CallExpr" and len(call_args(c)) == 2)]
+    first = [c for c in cr.walk() if c["k"] == "CallExpr" and ("isnan" in c.get("callee", "") or
+                                                                 (c.get("calleeId") in F.by_id and nan_scanner(F.by_id[c["calleeId"]])))]
     p0.check(bool(first) and "result" in render(first[0]) and
              all(r_ is None or True for r_ in [None]), "check_result|value-first", short_loc(cr.loc),
              "the value is tested before the derivative arrays (value errors override derivative errors)")
